@@ -315,11 +315,15 @@ class Ctx:
 
 
 def load_findings(prop: str) -> list[dict]:
-    path = os.path.join(VERIF, "known_findings.json")
-    if not os.path.exists(path):
-        return []
-    data = json.load(open(path))
-    return [e for e in data.get("findings", []) if e.get("property") == prop]
+    """Entries for `prop` from /verif/known_findings.json (the committed list) plus, while a slice is being
+    built, from harness/<prop>/known_findings.json (same format; merged into the main file by the lead)."""
+    out: list[dict] = []
+    for path in (os.path.join(VERIF, "known_findings.json"),
+                 os.path.join(VERIF, "harness", prop.lower(), "known_findings.json")):
+        if os.path.exists(path):
+            data = json.load(open(path))
+            out += [e for e in data.get("findings", []) if e.get("property") == prop]
+    return out
 
 
 def repo_env(extra: dict | None = None) -> dict:
